@@ -18,7 +18,8 @@ echo "== demo with patch"
 echo "   exit=$rc1"; tail -3 "$TMP/demo_patched.log" | sed 's/^/   | /'
 if [ $NOSUITE == 0 ]; then
   echo "== repository suite with patch"
-  ( cd "$TMP/repo" && PYTHONPATH="$TMP/repo/src" /venv/bin/python -m pytest -q -p no:cacheprovider --timeout=900 --continue-on-collection-errors --junitxml="$TMP/junit.xml" src/tests > "$TMP/suite.log" 2>&1 )
+  mkdir -p "$TMP/tmpdir"
+  ( cd "$TMP/repo" && TMPDIR="$TMP/tmpdir" PYTHONPATH="$TMP/repo/src" /venv/bin/python -m pytest -q -p no:cacheprovider --timeout=900 --continue-on-collection-errors --junitxml="$TMP/junit.xml" src/tests > "$TMP/suite.log" 2>&1 )
   python3 - "$TMP/junit.xml" <<'PY'
 import json, sys, xml.etree.ElementTree as ET
 want = set(json.load(open('/root/.vp/BASELINE.json'))['stable_pass'])
